@@ -3,6 +3,7 @@ import Mimium.Proofs.NewlineRule
 import Mimium.Proofs.CstPrintRender
 import Mimium.Proofs.CstPrintLeading
 import Mimium.Model.CstGrammar
+import Mimium.Proofs.LowerFront
 /-!
 # C14 — The formatter never changes a program, loses no comment, and is idempotent
 
@@ -42,6 +43,11 @@ in `Model/Pretty.lean` and tied to the crate by exact comparison on random docum
   twice, nothing is printed in neither place).  NOT proved: that every
   error-free parse tree without these shapes is in `keepsAll` (evaluated by the driver on every text of the run instead), and the
   re-tokenisation of the output (no two printed tokens merge) — hence `_partial`.
+* `C14_same_tokens_same_ast` (real grammar `Model/CstGrammar.lean` + real lowering `Model/Lower.lean`, both literal ports tied by
+  exact correspondence in C13 / C16): an output that keeps the syntax tokens (kinds and texts, in order), the answers of the
+  line-break oracle and token adjacency parses and lowers to THE SAME `Program` (AST and span terms) as the input — so the "same
+  AST" clause can only fail through a changed token, a moved line break in front of a position where the grammar asks the oracle,
+  or two operators glued together; that `cst_print.rs` keeps these is what is NOT proved (exercised by the correspondence).
 
 The three clauses of the statement themselves are decided by the correspondence stage with the real parser and
 the real formatter (see `tools/props/c14.py`); the defects it finds are listed in `known_findings.jsonl`.
@@ -358,3 +364,25 @@ theorem C14_first_line_comment_once :
   decide +kernel
 
 end Mimium.CstPrint
+/-! ## "Same AST" reduced to "same syntax tokens and line-break oracle" (ported parser + ported lowering) -/
+
+namespace Mimium.Props.C14
+open Mimium.Gen (Kind)
+open Mimium.Preparse Mimium.Grammar Mimium.Lower
+
+/-- If the formatter's output (`ks'`, `widths'`, `texts'`) has the same syntax tokens as its input — the same number, kinds (`view`)
+and texts (`tview`) —, the same `has_trailing_linebreak()` answer at every cursor position and the same raw adjacency of consecutive
+syntax tokens, then parsing and lowering it gives the same `Program` as the input, for every fuel: same statements, expressions,
+patterns, types, and the same spans as terms over the syntax tokens (`lowerParsed_layout`, the theorem behind
+`C16_front_end_layout_invariant`). -/
+theorem C14_same_tokens_same_ast (ks ks' : List Kind) (widths widths' : List Nat) (texts texts' : Array Sym)
+    (hw : widths.length = ks.length) (hw' : widths'.length = ks'.length) (fuel : Nat)
+    (hsize : (mkEnv ks widths (preparse ks)).idx.size = (mkEnv ks' widths' (preparse ks')).idx.size)
+    (hview : ∀ i, view (mkEnv ks widths (preparse ks)) ks.toArray i = view (mkEnv ks' widths' (preparse ks')) ks'.toArray i)
+    (htext : ∀ i, tview (mkEnv ks widths (preparse ks)) texts i = tview (mkEnv ks' widths' (preparse ks')) texts' i)
+    (hnl : ∀ i, (mkEnv ks widths (preparse ks)).nl i = (mkEnv ks' widths' (preparse ks')).nl i)
+    (hadj : ∀ i, adjacent (mkEnv ks widths (preparse ks)) i = adjacent (mkEnv ks' widths' (preparse ks')) i) :
+    lowerParsed ks widths texts fuel = lowerParsed ks' widths' texts' fuel :=
+  lowerParsed_layout ks ks' widths widths' texts texts' hw hw' fuel hsize hview hnl hadj htext
+
+end Mimium.Props.C14
